@@ -57,6 +57,7 @@ REQUIRED = [
     "shutdown_while_starting",
     "shutdown_waited_for_teardown",
     "shutdown_during_teardown",
+    "server_thread_pause_points_reached",
 ]
 WATCHDOG = {"quick": 1500, "thorough": 7200}
 OPS = ["serve", "serve", "shutdown", "shutdown", "close", "activate", "echo", "hold", "probe"]
@@ -785,6 +786,18 @@ def run_shard(params: dict, ctx) -> None:
             ctx.violation(key, f"[directed {label}] {why}", {"history": h, "events": res["events"][-16:], "threads": True, "directed": True})
     # NetworkServerThread start/join cycle
     _server_thread_cycle(ctx, rng)
+    # NetworkServerThread.start() against a stop request at every line of the start-up path
+    P = [(pt, y) for pt in server_thread_points() for y in ("shutdown", "close")]
+    mine2 = list(range(params["seed"] % 16, len(P), 16))
+    if params.get("tier") == "quick":
+        mine2 = mine2[(params["seed"] // 1000) % 3 :: 3]
+    for j in mine2:
+        pt, y = P[j]
+        ctx.count("kind:server-thread-directed")
+        why = server_thread_directed(ctx, pt, y)
+        ctx.case(True, "server-thread-directed", pt, y)
+        if why:
+            ctx.violation(f"never-returned:server-thread-start-vs-{y}", f"[NetworkServerThread] {why}", {"threads": True, "server_thread": True, "point": list(pt), "y": y})
 
 
 def _server_thread_cycle(ctx, rng) -> None:
@@ -817,7 +830,94 @@ def _server_thread_cycle(ctx, rng) -> None:
         ctx.violation("server-thread-cycle", f"NetworkServerThread start()/join(): {done.ok}", {"threads": True, "history": None})  # type: ignore[attr-defined]
 
 
+def server_thread_points() -> list[tuple[str, int]]:
+    from easynetwork.servers._base import BaseAsyncNetworkServerImpl as A
+    from easynetwork.servers._base import BaseStandaloneNetworkServerImpl as B
+    from easynetwork.servers.threads_helper import NetworkServerThread
+
+    return preempt.points([NetworkServerThread.run, B.serve_forever, A.serve_forever, A.server_activate])
+
+
+def server_thread_directed(ctx, point: tuple[str, int], y: str) -> str | None:
+    """NetworkServerThread.start() (which waits for the server to be up or to have given up) while another thread calls shutdown() /
+    server_close() with the server thread paused before `point` of the start-up path: start() must return, join() must end the thread"""
+    from easynetwork.servers._base import BaseAsyncNetworkServerImpl as A
+    from easynetwork.servers._base import BaseStandaloneNetworkServerImpl as B
+    from easynetwork.servers.standalone_tcp import StandaloneTCPNetworkServer
+    from easynetwork.servers.threads_helper import NetworkServerThread
+
+    server = StandaloneTCPNetworkServer(netutil.rand_loopback(), 0, StreamProtocol(StringLineSerializer()), EchoStream(0, 0), logger=_quiet())
+    t = NetworkServerThread(server, daemon=True)
+    other_done = threading.Event()
+    notes: dict = {}
+
+    def other():
+        try:
+            if y == "shutdown":
+                server.shutdown()
+            else:
+                server.server_close()
+            notes["y"] = "returned"
+        except BaseException as exc:  # noqa: BLE001
+            notes["y"] = f"raised {type(exc).__name__}"
+        other_done.set()
+
+    others: list = []
+
+    def at_pause():
+        o = threading.Thread(target=other, daemon=True)
+        others.append(o)
+        o.start()
+        other_done.wait(0.4)
+
+    started = threading.Event()
+
+    def starter():
+        try:
+            t.start()
+            notes["start"] = "returned"
+        except BaseException as exc:  # noqa: BLE001
+            notes["start"] = f"raised {type(exc).__name__}: {exc}"
+        started.set()
+
+    pp = preempt.PausePoint([NetworkServerThread.run, B.serve_forever, A.serve_forever, A.server_activate], point[0], point[1], at_pause)
+    why = None
+    with pp:
+        pp.armed = True
+        st = threading.Thread(target=starter, daemon=True)
+        st.start()
+        if not started.wait(20):
+            why = f"NetworkServerThread.start() still blocked 20 s after {y}() was called during the start-up (paused before {point}); {y}: {notes.get('y', 'pending')}"
+        for o in others:
+            o.join(20)
+            if o.is_alive() and why is None:
+                why = f"{y}() called during the start-up of the server thread never returned"
+    if pp.fired:
+        ctx.count("server_thread_pause_points_reached")
+    # tear down whatever is left
+    def cleanup():
+        try:
+            server.shutdown(timeout=10)
+            server.server_close()
+        except BaseException:  # noqa: BLE001
+            pass
+
+    ct = threading.Thread(target=cleanup, daemon=True)
+    ct.start()
+    ct.join(30)
+    if why is None and t.ident is not None:
+        t.join(timeout=20)
+        if t.is_alive():
+            why = f"the server thread is still alive after shutdown + join ({y} during start-up, paused before {point})"
+    return why
+
+
 def replay(witness: dict, ctx) -> None:
+    if witness.get("server_thread"):
+        why = server_thread_directed(ctx, tuple(witness["point"]), witness["y"])
+        if why:
+            ctx.violation("replayed", why, witness)
+        return
     if witness.get("directed"):
         res = run_thread_history(witness["history"], 0)
         why = "a lifecycle call never returned" if res.get("stuck") else check_history(res["events"], None, threads=True)
